@@ -125,3 +125,15 @@ prop(
         "the forward reader is never asked for 0 bits exactly at the end of its source (the Rust code would index out of bounds; no caller does)",
     ],
 )
+
+prop(
+    "C13",
+    level_text="Kernel-checked theorems about the Lean model of the Huffman coder.  Finite table (kernel evaluation, 26 modules): for every number n = 2..256 of distinct literal values the weight shape redistribute(distribute(n), log2 n + 2) is computed without panic, has n weights >= 1, ascending from 1, Kraft sum 2^m with m <= 11.  General theorems (no bound): Kraft-complete weights give a complete prefix-free code of lengths m+1-w (codes_prefix_free); every table build_from_counts returns for a histogram with 2..256 non-zero entries is such a code of depth <= 11 (compressor_table_valid, compressor_table_kraft); the decoder's rank-index construction yields the RFC's canonical table cell by cell (huf_table_eq_canonical) and every weight list that cannot form a complete code of depth <= 11 is rejected with the named error and never a panic (bad_weights_rejected, spec_rejected_is_rejected, build_table_never_panics); the direct weight description round-trips exactly (weights_roundtrip_direct) and the FSE-compressed one does under the explicit FSE contract discharged by C12 (weights_roundtrip_fse).  Stated at full strength but not proved in Lean: 1-/4-stream round trips and the <128-byte bound on FSE-compressed descriptions (fse_weights_lt_128_partial: the assertion fires iff the FSE encoder returns >= 128 bytes); both are covered by the correspondence run and by implementation-only oracles (round trip through the real decode_literals, libzstd, exhaustive sweep of alphabet size x number of unused symbols: largest payload 69 bytes).",
+    engines=[{"name": "huf"}],
+    modelled="weight-shape generation and depth limiting, code assignment, weight description writer/reader (direct and FSE-compressed; the FSE table of the weights is the Spec's, the FSE encoder a parameter fed with the real bytes), 1-/4-stream coders, decoder table construction incl. the state left behind by failed calls, HuffmanDecoder, decode_literals/decompress_literals are hand-written mirrors; constants and comparison operators come from the source text (Zstd/Gen/Huf.lean)",
+    assumptions=[
+        "the abstract bit writer / reversed bit reader of Zstd.Model.Huf.Bits (bit lists, zero fill past the beginning) is what BitWriter / BitReaderReversed implement for requests of at most 56 bits (tied by the `huf rev` correspondence; to be replaced by the shared BitIO model and its refinement theorem)",
+        "FSE round trip of the weights (encode_interleaved / two-state decoding loop) is the explicit hypothesis FseWeightsContract of weights_roundtrip_fse, to be discharged by C12 (write_read_table, enc_table_eq_dec_table, encode_decode_interleaved)",
+        "the FSE table of compressed weights on the decoder side is Zstd.Spec.Fse.{readDescription, buildTable} with max log 6 / max symbol 255; all FSETableError variants are one error class (to be replaced by the shared FSE decoder model)",
+    ],
+)
